@@ -63,6 +63,32 @@ CHECKS = {
         'Print Assumptions: closed under the global context.',
    technique='Coq proof by case analysis over the kind lattice + correspondence on all ordered pairs of a catalogue',
    design='DESIGN.md §3 C19'),
+ 'C02': dict(
+   text='Machine-checked proof (Coq) that for every scalar kind the text the JSON writer model emits is read back by the JSON reader model (the cascade of parse_embedded_scalar, '
+        'one hand-written matcher per regex with the typos and flags of the source) as the same kind with the same content - for ANY string/URI/Bin/display-name/XStr/unit payload, '
+        'for every valid date and time, for every date-time text isoformat() can produce with a whole-minute offset, and for numbers as the exact %f token; Remove is spelled x: under pre-3.0 and -: otherwise and both read back. '
+        'Tied by tree-equality of the writer model with json.loads(hszinc.dump()) and value-equality of the reader model with hszinc.parse on the same documents.',
+   note='PARTIAL: the induction through lists/dicts/grids is not proved (correspondence + search cover it). Numbers never enter Coq as floats: %f formatting and float() are CPython oracles '
+        '(hypothesis f6_shape on the token, sampled on every run). json.dumps/json.loads, iso8601, pytz, XStr decoding are outside the model. A dict with keys meta, cols and rows is read as a grid (format ambiguity, excluded from the domain). '
+        'Print Assumptions: closed under the global context.',
+   technique='Coq proofs about regex-matcher models + extracted-model correspondence (writer trees, reader values) + round-trip search',
+   design='DESIGN.md §3 C02'),
+ 'C05': dict(
+   text='Machine-checked proof (Coq) that the JSON reader model decodes the legal spellings beyond the writer\'s own: both Remove spellings, raw JSON numbers/booleans/null, strings without s: (second character not a colon), '
+        'times without seconds, n:INF/-INF/NaN, numbers with and without unit; further clauses as evaluated examples. Tied by the reader model vs hszinc.parse on documents of an independent grammar-directed writer '
+        '(value x independently chosen spelling, 4 input forms) and on 56 odd/malformed spellings.',
+   note='PARTIAL: exponent forms, fractions of other lengths, Z date-times and grid-level clauses (rows missing/null/omitting columns) are not proved, only exercised. '
+        '"The caller\'s object is never modified" is vacuous in a functional model: checked on the implementation by deep snapshot only. '
+        'Lower-case z in JSON date-times and nested grids without a rows key are outside the property\'s list and are not generated. Print Assumptions: closed under the global context.',
+   technique='Coq proofs about regex-matcher models + correspondence on independently written documents',
+   design='DESIGN.md §3 C05'),
+ 'C06': dict(
+   text='Machine-checked proof (Coq) about the JSON writer model: a dumped grid is {meta:{..,ver}, cols:[..], rows:[..]} in that order with ver present, every scalar kind carries its type prefix and its payload verbatim / in isoformat, '
+        'non-finite numbers are n:INF, n:-INF, n:NaN, 3.0-only kinds are refused under a pre-3.0 version. Tied by exact tree equality with json.loads(hszinc.dump()); the search checks JSON validity, shape, per-kind lexical form and an independent spec-derived reader.',
+   note='PARTIAL: conformance against a grammar relation is not proved in Coq; the independent reader (harness/jsonsim.spec_read, written from the Haystack JSON description, shares no code with hszinc) is harness code. '
+        'Print Assumptions: closed under the global context.',
+   technique='Coq proofs about the writer model + tree-equality correspondence + independent reader',
+   design='DESIGN.md §3 C06'),
 }
 PENDING = {}
 for i in range(1, 21):
